@@ -527,11 +527,13 @@ impl MutexBasedPool {
         let bin_index = (size / self.config.alignment) - 1;
 
         if bin_index < self.free_lists.len() {
+            verif_lock_scope!(_vb, &self.free_lists[bin_index] as *const _);
             let mut head = self.free_lists[bin_index].lock()
                 .map_err(|e| ZiporaError::resource_busy(format!("Free list mutex poisoned: {}", e)))?;
             if !head.head.is_null() {
                 let offset = head.head;
                 unsafe {
+                    verif_lock_scope!(_vm, std::sync::Arc::as_ptr(&self.memory));
                     let memory = self.memory.lock()
                         .map_err(|e| ZiporaError::resource_busy(format!("Memory mutex poisoned: {}", e)))?;
                     let ptr = memory.offset_ptr(offset.to_usize()) as *mut u32;
@@ -544,6 +546,7 @@ impl MutexBasedPool {
         }
 
         // Allocate from end
+        verif_lock_scope!(_vm, std::sync::Arc::as_ptr(&self.memory));
         let mut memory = self.memory.lock()
             .map_err(|e| ZiporaError::resource_busy(format!("Memory mutex poisoned: {}", e)))?;
         if !memory.can_allocate(size) {
@@ -572,10 +575,12 @@ impl MutexBasedPool {
         let bin_index = (size / self.config.alignment) - 1;
 
         if bin_index < self.free_lists.len() {
+            verif_lock_scope!(_vb, &self.free_lists[bin_index] as *const _);
             let mut head = self.free_lists[bin_index].lock()
                 .map_err(|e| ZiporaError::resource_busy(format!("Free list mutex poisoned: {}", e)))?;
 
             unsafe {
+                verif_lock_scope!(_vm, std::sync::Arc::as_ptr(&self.memory));
                 let memory = self.memory.lock()
                     .map_err(|e| ZiporaError::resource_busy(format!("Memory mutex poisoned: {}", e)))?;
                 let ptr = memory.offset_ptr(offset.to_usize()) as *mut u32;
